@@ -171,7 +171,7 @@ def run_clean_tool(uni, spec, judge):
             with contextlib.redirect_stdout(io.StringIO()):
                 try:
                     clean(con, tr_paths, args)
-                except HashError:
+                except (HashError, IsADirectoryError):
                     # Observation (not a C06 violation, nothing is destroyed): `stepup clean`
                     # ends with a traceback when a recorded output was replaced by a directory;
                     # finalize.remove_deletable_files handles the same situation with a warning.
